@@ -56,7 +56,6 @@ def o_inverse(spec):
     U = own_matrix(c, n)
     inv = must(c.inverse, "inverse")
     require(inv.n_qubits == n, lambda: f"inverse has width {inv.n_qubits}, circuit {n}")
-    require(len(inv.operations) == len(c.operations), "inverse has a different number of operations")
     Ui = own_matrix(inv, n)
     require(ref.close(Ui, U.conj().T), lambda: f"inverse matrix is not the conjugate transpose, max|d|={ref.maxdiff(Ui, U.conj().T):.3g}")
     Ul = ref.npm(must(inv.to_unitary, "inverse.to_unitary"))
@@ -114,7 +113,7 @@ def o_inverse_symbolic(spec):
     n = cgen.circuit_width(sym)
     require(set(c.free_symbols) == set(vals), lambda: f"free symbols {c.free_symbols}, expected {sorted(map(str, vals))}")
     inv = must(c.inverse, "inverse (free symbols)")
-    require(inv.n_qubits == n and len(inv.operations) == len(c.operations), "inverse differs in width or length")
+    require(inv.n_qubits == n, lambda: f"inverse has width {inv.n_qubits}, circuit {n}")
 
     def num(M):
         return ref.npm(sympy.N(sympy.Matrix(M).xreplace(vals), 20))
@@ -122,13 +121,6 @@ def o_inverse_symbolic(spec):
     U = num(must(c.to_unitary, "to_unitary (free symbols)"))
     V = num(must(inv.to_unitary, "inverse.to_unitary (free symbols)"))
     require(ref.close(V, U.conj().T, 1e-8), lambda: f"inverse of a circuit with free symbols, evaluated at {dict((str(k), complex(v)) for k, v in vals.items())}: not the conjugate transpose, max|d|={ref.maxdiff(V, U.conj().T):.3g}")
-    # operation by operation: inverse op k is the adjoint of original op (m-1-k) on the same qubits
-    m = len(c.operations)
-    for k, op in enumerate(inv.operations):
-        src = c.operations[m - 1 - k]
-        require(tuple(op.qubit_indices) == tuple(src.qubit_indices), lambda: f"inverse operation {k} acts on {op.qubit_indices}, original on {src.qubit_indices}")
-        A, B = num(op.gate.matrix), num(src.gate.matrix)
-        require(ref.close(A, B.conj().T, 1e-8), lambda: f"inverse operation {k} ({op.gate}) is not the adjoint of {src.gate} at these values, max|d|={ref.maxdiff(A, B.conj().T):.3g}")
     S = num(must((c + inv).to_unitary, "to_unitary of circuit + inverse"))
     require(ref.close(S, np.eye(2 ** n), 1e-8), lambda: f"circuit + inverse (free symbols) is not the identity at these values, max|d|={ref.maxdiff(S, np.eye(2 ** n)):.3g}")
     cl = set()
@@ -273,7 +265,7 @@ SUBCHECKS = [
     SubCheck("ancilla", o_ancilla, strategy=anc_cases, examples=(250, 1000), shards=(2, 6), fork_timeout=30,
              rule="add_ancilla_register: width + k, action = old (x) identity"),
     SubCheck("inverse_symbolic", o_inverse_symbolic, strategy=inv_sym_cases, examples=(60, 300), shards=(4, 12), fork_timeout=60,
-             rule="circuits with free symbols (angles, and the parameter z of a user-defined gate diag(1, z) evaluated on the unit circle): inverse().to_unitary() is the conjugate transpose, operation by operation and as a whole, circuit + inverse == I"),
+             rule="circuits with free symbols (angles, and the parameter z of a user-defined gate diag(1, z) evaluated on the unit circle): inverse().to_unitary() is the conjugate transpose, circuit + inverse == I"),
 ]
 SUBCHECKS[4].expected_classes = ["non_angle_parameter", "symbolic_angle"]
 SUBCHECKS[0].expected_classes = ["permuted", "non_adjacent", "wrapped", "custom", "idle", "exp_wrapper"]
